@@ -97,7 +97,7 @@ func render(lp *lprog, rng *rand.Rand) *Program {
 		return kind
 	}
 	for si, rules := range lp.seqs {
-		st := SeqText{Tag: tagOf(si), Loader: pick(rng, "direct", "direct", "init", "yaml")}
+		st := SeqText{Tag: tagOf(si), Loader: pick(rng, "direct", "direct", "direct", "direct", "init", "init", "init", "yaml")}
 		st.Rules = []RuleText{}
 		for ri, r := range rules {
 			var rt RuleText
